@@ -1,7 +1,7 @@
 #!/bin/bash
 # dev helper: every seed that a mirsym obligation catches must still be caught (exit=1 each)
 cd /verif
-for s in "C09-8 C09" "C19-8 C19" "C02-8 C02" "C08-8 C08" "C18-8 C18" "C01-7 C01" "C05-7 C05" "C12-7 C12" "C03-6 C03" "C07-6 C07" "C17-6 C17" "C09-5 C09" "C10-5 C10" "C06-6 C06" "C11-6 C11" "C16-6 C16" "C02-5 C02" "C08-5 C08" "C13-5 C13" "C19-5 C19" "C01-1 C01" "C02-1 C02" "C03-1 C03" "C05-1 C05" "C06-1 C06" "C09-1 C09" "C11-1 C11" "C13-1 C13" "C16-1 C16" "C17-1 C17" "C19-1 C19" \
+for s in "C10-8 C10" "C09-8 C09" "C19-8 C19" "C02-8 C02" "C08-8 C08" "C18-8 C18" "C01-7 C01" "C05-7 C05" "C12-7 C12" "C03-6 C03" "C07-6 C07" "C17-6 C17" "C09-5 C09" "C10-5 C10" "C06-6 C06" "C11-6 C11" "C16-6 C16" "C02-5 C02" "C08-5 C08" "C13-5 C13" "C19-5 C19" "C01-1 C01" "C02-1 C02" "C03-1 C03" "C05-1 C05" "C06-1 C06" "C09-1 C09" "C11-1 C11" "C13-1 C13" "C16-1 C16" "C17-1 C17" "C19-1 C19" \
          "C01-2 C05" "C02-2 C02" "C03-2 C03" "C05-2 C05" "C06-2 C06" "C07-2 C07" "C08-2 C08" "C10-2 C10" "C11-2 C11" "C12-1 C12" "C13-2 C13" "C17-2 C17" "C19-2 C19" "C01-3 C01" "C03-3 C03" "C05-3 C05" "C06-3 C06" "C08-3 C08" "C09-3 C09" "C10-3 C10" "C11-3 C11" "C13-3 C13" "C16-3 C16" "C19-3 C19" "C01-4 C01" "C02-4 C02" "C03-4 C03" "C05-4 C05"; do
   tools/seedmir.sh $s 2>&1 | grep "exit="
 done
